@@ -205,10 +205,11 @@ Section TplAcc.
       2:{ exact I. }
       destruct (SN_ok s r 4 HR H4) as [s1 [E1 HR1]]. rewrite E1. cbn [sbind].
       rewrite ta_be_u32_take by exact H4. unfold sret at 1. cbn [sbind].
-      set (u := unbe (take 4 r)).
-      destruct (Z.ltb_spec (Z.of_N u) 0); [lia|].
+      pose proof (unbe4_lt r (Rep_wf _ _ HR)) as Hu32. set (u := unbe (take 4 r)) in *.
+      cbv zeta. rewrite i32_neg by exact Hu32.   (* since /repo 2c7f196: sz := int(int32(..)) *)
       destruct (N.leb_spec two31 u) as [Hneg|Hpos].
       { exact I. }
+      rewrite i32_small by exact Hpos. rewrite N2Z.id.
       rewrite hasn_le. destruct (N.leb_spec u (len (drop 4 r))) as [Hu|Hu].
       + destruct (SN_ok s1 (drop 4 r) u HR1 Hu) as [s2 [E2 HR2]]. rewrite E2. cbn.
         exists s2. split; [reflexivity|]. rewrite drop_plus in HR2. exact HR2.
